@@ -427,6 +427,8 @@ type Session struct {
 	Pipeline bool
 	T        Transport
 	W        *World
+	// WrittenGate, if set (under SetWrittenGate), is called on the caller's goroutine between its write and its wait
+	WrittenGate func(idx int)
 
 	mu    sync.Mutex
 	gids  map[int64]int
@@ -452,6 +454,17 @@ func NewSession(pipeline bool, w *World, t Transport) *Session {
 	verifhook.Set(func(name string) {
 		var attempt, created bool
 		switch name {
+		case "tdc.exchange.written", "reuse.exchange.written":
+			// the caller between its write and its wait: a scenario may keep it here
+			g := gid()
+			s.mu.Lock()
+			idx, ok := s.gids[g]
+			gate := s.WrittenGate
+			s.mu.Unlock()
+			if ok && gate != nil {
+				gate(idx)
+			}
+			return
 		case "pipeline.attempt", "reuse.attempt":
 			attempt = true
 		case "pipeline.conn.created", "reuse.conn.created":
@@ -496,6 +509,13 @@ func NewSession(pipeline bool, w *World, t Transport) *Session {
 	}
 	deadHook.Store(&g)
 	return s
+}
+
+// SetWrittenGate installs f as the gate callers pass between their write and their wait.
+func (s *Session) SetWrittenGate(f func(idx int)) {
+	s.mu.Lock()
+	s.WrittenGate = f
+	s.mu.Unlock()
 }
 
 // End releases the hooks; call exactly once.
